@@ -4,9 +4,13 @@ import SpecterModel.C50.Model
 C50 line-protocol driver.
   conn <recorder 0|1> <conns> <table>  =>  <ids>
 conns = comma list of `key|addr|unknown(0/1)|realMeasurementKey` (node id = position), `-` = none
-table = comma list of `mkey|age;age;…|avg` (ages in ms of the recorded points, `_` = none; avg = the
-        implementation's Snapshot(mkey,10s).Average in ns, `_` = snapshot nil; optional 4th field `sent;lost` = probes
-        recorded for the key, which the model ignores: only samples inside the window make a key measured), `-` = empty
+table = comma list of `mkey|age;age;…|avg|sent;lost|val;val;…` (ages in ms and values in ns of ALL samples the harness
+        passed to RecordLatency for the key, in recording order, `_` = none; avg = the implementation's
+        Snapshot(mkey,10s).Average in ns, `_` = snapshot nil; `sent;lost` = probes recorded for the key, which the
+        model ignores: only samples inside the window make a key measured), `-` = empty
+
+Statement-level verdict (SPEC): which node "has a recent round-trip measurement", and its average, are decided from
+the harness's ground truth (the samples it recorded and when), never from what the implementation's Snapshot says.
 -/
 namespace Specter.C50
 open Specter.Util
@@ -26,12 +30,14 @@ def parseTable (t : String) : Option (List Entry) :=
   if t = "-" then some [] else
   (t.splitOn ",").mapM fun (e : String) =>
     match e.splitOn "|" with
-    | k :: ages :: avg :: _probes =>
+    | [k, ages, avg, _probes, vals] =>
       let ages? := if ages = "_" then some [] else (ages.splitOn ";").mapM (·.toNat?)
+      let vals? := if vals = "_" then some [] else (vals.splitOn ";").mapM parseInt?
       let avg? : Option (Option Int) := if avg = "_" then some none else (parseInt? avg).map some
-      match ages?, avg? with
-      | some a, some v => some ⟨k, a, v⟩
-      | _, _ => none
+      match ages?, vals?, avg? with
+      | some a, some vs, some v =>
+        if a.length = vs.length then some ⟨k, (a.zip vs).map (fun (x, y) => ⟨x, y⟩), v⟩ else none
+      | _, _, _ => none
     | _ => none
 
 def ids (l : List Node) : String := if l.isEmpty then "-" else ",".intercalate (l.map (toString ·.id))
@@ -44,7 +50,7 @@ def step (_ : Unit) (toks : List String) (rhs : String) : Unit × Verdict :=
     | some cs, some tab, some out =>
       let conns := cs.map (·.1)
       let rec_ := r = "1"
-      -- statement-level verdict, using the real measurement keys
+      -- statement-level verdict, using the real measurement keys and the samples that were really recorded
       let realKey (i : Nat) : Option String := (cs[i]?).map (·.2)
       let meas (i : Nat) : Option Int := (realKey i).bind (snapshot tab)
       let okPair (i j : Nat) : Bool :=
@@ -56,12 +62,19 @@ def step (_ : Unit) (toks : List String) (rhs : String) : Unit × Verdict :=
       let rec ordered : List Nat → Bool
         | a :: b :: rest => okPair a b && ordered (b :: rest)
         | _ => true
+      -- inside the quantifier: time only moves forward, so a key with more samples than the recorder retains has
+      -- them in non-increasing age order (then "measured recently" = "some recorded sample is recent")
+      let rec mono : List Sample → Bool
+        | a :: b :: rest => decide (b.age ≤ a.age) && mono (b :: rest)
+        | _ => true
+      if tab.any (fun e => e.samples.length > capacity + 1 ∧ !mono e.samples) then
+        ((), .bad "more samples than the recorder retains must be in recording-time order") else
       if out.length > 3 then ((), .spec s!"{out.length} gateways used, at most 3 allowed")
       else if out.any (· ≥ conns.length) ∨ out.eraseDups.length ≠ out.length then ((), .spec "result is not a set of connected nodes")
       else if rec_ ∧ !ordered out then ((), .spec "a node with a recent measurement comes after an unmeasured or slower one")
       else if cs.any (fun (n, mk) => mkey n ≠ mk) then ((), .diff "measurement key differs from the model's MakeMeasurementKey")
-      else if tab.any (fun e => (e.ages.any (· ≤ windowMs)) ≠ e.avg.isSome) then
-        ((), .diff "Snapshot window differs from the model (point within 10 s <-> snapshot non-nil)")
+      else if tab.any (fun e => snapAvg (recordAll capacity e.samples) ≠ e.avg) then
+        ((), .diff "Snapshot differs from the model's recorder (retained points within 10 s, their mean)")
       else
         let m := connected conns rec_ (fun n => snapshot tab (mkey n))
         if m.map (·.id) ≠ out then ((), .diff (ids m)) else ((), .ok)
